@@ -379,7 +379,7 @@ def rule_label_writes(m, coherent_store=False):
 # ------------------------------------------------------------------------------------------------
 def rule_ordered_edge(m):
     res = RuleResult('F-ORD.v', 'orderedEdge(i,j) returns (min(i,j), max(i,j)) - evaluated over the three orderings')
-    for f in m.by_tname.get(LUG + '::orderedEdge', []):
+    for f in m.by_tname.get(m.ordered_edge(), []):
         res.sites += 1
         ctx = Ctx(m, f)
         rets = [n for n in f.nodes if n['k'] == 'ReturnStmt']
